@@ -743,6 +743,15 @@ class Machine:
         return "accept", ""
 
 
+def name_key(s):
+    """Identity of a row/CPU name independent of its exact formatting: the
+    integers in it, plus a marker for the virtual CPU."""
+    import re
+    if s is None:
+        return None
+    return tuple(re.findall(r"\d+", s)) + (("v",) if ("*" in s or s.strip().lower().startswith("v")) else ())
+
+
 def compare_timelines(machine, pvts, keys_filter=None, upto=None, accepted=True):
     """Compare expected step functions with the PRV files.
     pvts: {'thread': Pvt, 'cpu': Pvt}.  Returns list of mismatch strings."""
@@ -760,7 +769,9 @@ def compare_timelines(machine, pvts, keys_filter=None, upto=None, accepted=True)
                 errs.append("%s.prv line at time %d which is not an event time (row %d type %d)" % (kind, t, row, ty))
                 break
         keys = set(k for k in ex.series if k[0] == kind)
-        keys |= set((kind, row, ty) for (row, ty) in pvt.steps)
+        known_types = {1, 2, 3, 4, 6} | {q[2] for q in machine.quantities} | {100 + k for k in machine.w.mark_types}
+        # types the reference knows nothing about (e.g. a new model's timeline) are not its business
+        keys |= set((kind, row, ty) for (row, ty) in pvt.steps if ty in known_types)
         for key in sorted(keys):
             _, row, ty = key
             if keys_filter is not None and not keys_filter(kind, ty):
@@ -788,7 +799,11 @@ def compare_timelines(machine, pvts, keys_filter=None, upto=None, accepted=True)
                 elif ty in LABEL_TYPES:
                     lab = pvt.pcf.label(ty, a)
                     a = lab if lab is not None else "<unlabeled %d>" % a
-                if a not in cur_e:
+                if ty == T_TH_CPU and kind == "thread":
+                    ok = name_key(a) in {name_key(x) for x in cur_e} if a is not None else (None in cur_e)
+                else:
+                    ok = a in cur_e
+                if not ok:
                     errs.append("%s row %d type %d at t=%d: emulator shows %r, reference expects %s"
                                 % (kind, row, ty, t, a, sorted(map(repr, cur_e))))
                     break
